@@ -196,6 +196,7 @@ func newRootScope(opts ScopeOptions, interval time.Duration) *scope {
 		go func() {
 			defer s.wg.Done()
 			s.reportLoop(interval)
+			verifYield("loop:exit")
 		}()
 	}
 
@@ -204,44 +205,56 @@ func newRootScope(opts ScopeOptions, interval time.Duration) *scope {
 
 // report dumps all aggregated stats into the reporter. Should be called automatically by the root scope periodically.
 func (s *scope) report(r StatsReporter) {
+	verifRLock(&s.cm, "scope.report:cm")
 	s.cm.RLock()
 	for name, counter := range s.counters {
+		verifYield("scope.report:counter")
 		counter.report(s.fullyQualifiedName(name), s.tags, r)
 	}
 	s.cm.RUnlock()
 
+	verifRLock(&s.gm, "scope.report:gm")
 	s.gm.RLock()
 	for name, gauge := range s.gauges {
+		verifYield("scope.report:gauge")
 		gauge.report(s.fullyQualifiedName(name), s.tags, r)
 	}
 	s.gm.RUnlock()
 
 	// we do nothing for timers here because timers report directly to ths StatsReporter without buffering
 
+	verifRLock(&s.hm, "scope.report:hm")
 	s.hm.RLock()
 	for name, histogram := range s.histograms {
+		verifYield("scope.report:histogram")
 		histogram.report(s.fullyQualifiedName(name), s.tags, r)
 	}
 	s.hm.RUnlock()
 }
 
 func (s *scope) cachedReport() {
+	verifRLock(&s.cm, "scope.report:cm")
 	s.cm.RLock()
 	for _, counter := range s.countersSlice {
+		verifYield("scope.report:counter")
 		counter.cachedReport()
 	}
 	s.cm.RUnlock()
 
+	verifRLock(&s.gm, "scope.report:gm")
 	s.gm.RLock()
 	for _, gauge := range s.gaugesSlice {
+		verifYield("scope.report:gauge")
 		gauge.cachedReport()
 	}
 	s.gm.RUnlock()
 
 	// we do nothing for timers here because timers report directly to ths StatsReporter without buffering
 
+	verifRLock(&s.hm, "scope.report:hm")
 	s.hm.RLock()
 	for _, histogram := range s.histogramsSlice {
+		verifYield("scope.report:histogram")
 		histogram.cachedReport()
 	}
 	s.hm.RUnlock()
@@ -253,6 +266,7 @@ func (s *scope) reportLoop(interval time.Duration) {
 	defer ticker.Stop()
 
 	for {
+		verifYield("loop:idle")
 		select {
 		case <-ticker.C:
 			s.reportLoopRun()
@@ -263,9 +277,11 @@ func (s *scope) reportLoop(interval time.Duration) {
 }
 
 func (s *scope) reportLoopRun() {
+	verifYield("loop.run:top")
 	if s.closed.Load() {
 		return
 	}
+	verifYield("loop.run:checked")
 
 	s.reportRegistry()
 }
@@ -273,9 +289,11 @@ func (s *scope) reportLoopRun() {
 func (s *scope) reportRegistry() {
 	if s.reporter != nil {
 		s.registry.Report(s.reporter)
+		verifYield("reportRegistry:before-flush")
 		s.reporter.Flush()
 	} else if s.cachedReporter != nil {
 		s.registry.CachedReport()
+		verifYield("reportRegistry:before-flush")
 		s.cachedReporter.Flush()
 	}
 }
@@ -286,6 +304,8 @@ func (s *scope) Counter(name string) Counter {
 		return c
 	}
 
+	verifYield("scope.Counter:probe-miss")
+	verifLock(&s.cm, "scope.Counter:lock")
 	s.cm.Lock()
 	defer s.cm.Unlock()
 
@@ -309,6 +329,7 @@ func (s *scope) Counter(name string) Counter {
 }
 
 func (s *scope) counter(sanitizedName string) (Counter, bool) {
+	verifRLock(&s.cm, "scope.counter:rlock")
 	s.cm.RLock()
 	defer s.cm.RUnlock()
 
@@ -322,6 +343,8 @@ func (s *scope) Gauge(name string) Gauge {
 		return g
 	}
 
+	verifYield("scope.Gauge:probe-miss")
+	verifLock(&s.gm, "scope.Gauge:lock")
 	s.gm.Lock()
 	defer s.gm.Unlock()
 
@@ -344,6 +367,7 @@ func (s *scope) Gauge(name string) Gauge {
 }
 
 func (s *scope) gauge(name string) (Gauge, bool) {
+	verifRLock(&s.gm, "scope.gauge:rlock")
 	s.gm.RLock()
 	defer s.gm.RUnlock()
 
@@ -357,6 +381,8 @@ func (s *scope) Timer(name string) Timer {
 		return t
 	}
 
+	verifYield("scope.Timer:probe-miss")
+	verifLock(&s.tm, "scope.Timer:lock")
 	s.tm.Lock()
 	defer s.tm.Unlock()
 
@@ -380,6 +406,7 @@ func (s *scope) Timer(name string) Timer {
 }
 
 func (s *scope) timer(sanitizedName string) (Timer, bool) {
+	verifRLock(&s.tm, "scope.timer:rlock")
 	s.tm.RLock()
 	defer s.tm.RUnlock()
 
@@ -402,6 +429,8 @@ func (s *scope) Histogram(name string, b Buckets) Histogram {
 		htype = durationHistogramType
 	}
 
+	verifYield("scope.Histogram:probe-miss")
+	verifLock(&s.hm, "scope.Histogram:lock")
 	s.hm.Lock()
 	defer s.hm.Unlock()
 
@@ -431,6 +460,7 @@ func (s *scope) Histogram(name string, b Buckets) Histogram {
 }
 
 func (s *scope) histogram(sanitizedName string) (Histogram, bool) {
+	verifRLock(&s.hm, "scope.histogram:rlock")
 	s.hm.RLock()
 	defer s.hm.RUnlock()
 
@@ -468,6 +498,7 @@ func (s *scope) Snapshot() Snapshot {
 			tags[k] = v
 		}
 
+		verifRLock(&ss.cm, "scope.Snapshot:cm")
 		ss.cm.RLock()
 		for key, c := range ss.counters {
 			name := ss.fullyQualifiedName(key)
@@ -479,6 +510,7 @@ func (s *scope) Snapshot() Snapshot {
 			}
 		}
 		ss.cm.RUnlock()
+		verifRLock(&ss.gm, "scope.Snapshot:gm")
 		ss.gm.RLock()
 		for key, g := range ss.gauges {
 			name := ss.fullyQualifiedName(key)
@@ -490,6 +522,7 @@ func (s *scope) Snapshot() Snapshot {
 			}
 		}
 		ss.gm.RUnlock()
+		verifRLock(&ss.tm, "scope.Snapshot:tm")
 		ss.tm.RLock()
 		for key, t := range ss.timers {
 			name := ss.fullyQualifiedName(key)
@@ -501,6 +534,7 @@ func (s *scope) Snapshot() Snapshot {
 			}
 		}
 		ss.tm.RUnlock()
+		verifRLock(&ss.hm, "scope.Snapshot:hm")
 		ss.hm.RLock()
 		for key, h := range ss.histograms {
 			name := ss.fullyQualifiedName(key)
@@ -525,10 +559,13 @@ func (s *scope) Close() error {
 		return nil
 	}
 
+	verifYield("scope.Close:cas-won")
 	close(s.done)
+	verifYield("scope.Close:done-closed")
 
 	if s.root {
 		s.reportRegistry()
+		verifYield("scope.Close:reported")
 		if closer, ok := s.baseReporter.(io.Closer); ok {
 			return closer.Close()
 		}
@@ -538,9 +575,13 @@ func (s *scope) Close() error {
 }
 
 func (s *scope) clearMetrics() {
+	verifLock(&s.cm, "scope.clearMetrics:cm")
 	s.cm.Lock()
+	verifLock(&s.gm, "scope.clearMetrics:gm")
 	s.gm.Lock()
+	verifLock(&s.tm, "scope.clearMetrics:tm")
 	s.tm.Lock()
+	verifLock(&s.hm, "scope.clearMetrics:hm")
 	s.hm.Lock()
 	defer s.cm.Unlock()
 	defer s.gm.Unlock()
